@@ -19,7 +19,7 @@ let run () =
          (match lhs with
           | "u" :: helper :: leaf :: n :: t :: _ ->
             incr total;
-            let n = if helper = "array" || helper = "anyarray" then int_of_string n else 1 in
+            let n = if List.mem helper ["array"; "anyarray"; "arraynm"; "anyarraynm"] then int_of_string n else 1 in
             let t = int_of_string t in
             let fail = if t >= 0 && t < n then Some (nat_of_int t) else None in
             if fail <> None then incr throws;
